@@ -265,7 +265,12 @@ func main() {
 		nPure2 := c.Scale(260, 9000)
 		for i := 0; i < nPure2; i++ {
 			p2, used := Pure2Program(c.Rng.Fork())
-			add(&item{name: fmt.Sprintf("pure2:%d", i), stream: "pure2", build: p2, used: used, refused: used["range-step"] > 0})
+			add(&item{name: fmt.Sprintf("pure2:%d", i), stream: "pure2", build: p2, used: used})
+		}
+		// regression scenarios for /repo 3ce4752 (pyRange.Len = the number of items): a comprehension over an empty descending
+		// range (Len() was negative: makeslice panicked) and over a range whose step does not divide the span (Len() was short)
+		for i, rp := range RangeLenRegressions() {
+			add(&item{name: fmt.Sprintf("rangelen:%d", i), stream: "rangelen", build: rp})
 		}
 		nFresh, nSort, nSortBig := c.Scale(120, 5000), c.Scale(80, 4000), c.Scale(16, 800)
 		for i := 0; i < nFresh; i++ {
@@ -369,6 +374,10 @@ func main() {
 			switch {
 			case it.asp.Err != "":
 				it.verdict = "asp-error"
+				if it.stream == "rangelen" && it.py.Err == "" {
+					c.Fail("comprehension-over-range-raises", "a comprehension over a range raises in asp where CPython computes a list: "+it.asp.Err+" ("+firstLine(it.src)+")",
+						map[string]any{"src": it.src, "asp_err": it.asp.Err, "python": it.py})
+				}
 				if it.py.Err != "" {
 					c.Hist("outcome", "both-raise")
 				} else {
@@ -520,7 +529,7 @@ func main() {
 				continue
 			}
 			maxOps, classes := chainStats(append(append(aspgen.Prog{}, it.defs...), it.build...))
-			nontrivial := maxOps >= 2 || it.stream == "program" || it.stream == "defs" || it.stream == "pure" || it.stream == "pure2" || it.stream == "fresh" || it.stream == "sortkey"
+			nontrivial := maxOps >= 2 || it.stream == "program" || it.stream == "defs" || it.stream == "pure" || it.stream == "pure2" || it.stream == "rangelen" || it.stream == "fresh" || it.stream == "sortkey"
 			c.HistN("max_chain_ops", maxOps)
 			for _, cl := range classes {
 				c.Hist("chain_class", cl)
